@@ -15,6 +15,25 @@ use rustbus::wire::{ObjectPath, SignatureWrapper, UnixFd};
 use rustbus::{ByteOrder, Marshal, Signature, Unmarshal};
 use std::collections::HashMap;
 
+/// While a decode operation runs, the raw descriptors of the message's descriptor list: a decoded UnixFd is
+/// printed as its index in this list (that is what the bytes say), otherwise as 0 (live) / 1 (taken).
+pub static FD_TABLE: std::sync::Mutex<Vec<i32>> = std::sync::Mutex::new(Vec::new());
+pub fn fd_token(fd: &UnixFd) -> String {
+    match fd.get_raw_fd() {
+        Some(raw) => {
+            let t = FD_TABLE.lock().unwrap();
+            match t.iter().position(|x| *x == raw) {
+                Some(i) => i.to_string(),
+                None => "0".to_string(),
+            }
+        }
+        None => "1".to_string(),
+    }
+}
+pub fn set_fd_table(fds: &[UnixFd]) {
+    *FD_TABLE.lock().unwrap() = fds.iter().filter_map(|f| f.get_raw_fd()).collect();
+}
+
 pub struct Args<'a> {
     toks: Vec<&'a str>,
     pos: usize,
@@ -150,7 +169,7 @@ impl Tok for Fd {
     }
     fn to_tok(&self, out: &mut Vec<String>, _s: bool) {
         out.push("h".into());
-        out.push(if self.0.get_raw_fd().is_some() { "0" } else { "1" }.to_string());
+        out.push(fd_token(&self.0));
     }
 }
 impl Signature for Fd {
@@ -452,6 +471,7 @@ where
             let phase = a.num() as usize;
             let bytes = crate::unhex(a.next());
             let fds: Vec<UnixFd> = (0..nfds).map(|_| UnixFd::new(nix::unistd::dup(2).unwrap())).collect();
+            set_fd_table(&fds);
             let mut backing = vec![0u64; bytes.len() / 8 + 3];
             let base = backing.as_mut_ptr() as *mut u8;
             let buf: &mut [u8] = unsafe { std::slice::from_raw_parts_mut(base.add(phase), bytes.len()) };
@@ -461,14 +481,16 @@ where
                 return "badoffset".to_string();
             }
             let mut ctx = UnmarshalContext::new(&fds, byteorder, buf, offset);
-            match T::unmarshal(&mut ctx) {
+            let res = match T::unmarshal(&mut ctx) {
                 Ok(x) => {
                     let mut out = Vec::new();
                     x.to_tok(&mut out, true);
                     format!("ok {} {}", buf.len() - ctx.remainder().len() - offset, out.join(" "))
                 }
                 Err(_) => "err".to_string(),
-            }
+            };
+            set_fd_table(&[]);
+            res
         }
         _ => "NOOP".to_string(),
     }
